@@ -112,6 +112,11 @@ class GroupInconclusive(Exception):
   pass
 
 
+class GroupMismatch(Exception):
+  """Two operands of one element-wise operation (e.g. numerator and
+  denominator of the scale) are reduced over different groups."""
+
+
 def _apply_shape_op(t, arr):
   import numpy as np
   f, attrs = t[1], t[2]
@@ -217,7 +222,8 @@ def group_labels(term, x_shape):
     for p in parts[1:]:
       if p[1] != first[1] or p[2].shape != first[2].shape or \
           not (p[2] == first[2]).all():
-        raise GroupInconclusive("operands grouped differently")
+        raise GroupMismatch("operands of %s are reduced over different "
+                            "groups" % (t[1] if k == "app" else k))
     return first
   v = up(term)
   if v is None:
@@ -277,6 +283,10 @@ def rule_groups(rep, repo, classes, rule="R6", tier="quick"):
           except GroupInconclusive as ex:
             raise AnalysisError("unsupported-construct grouped scale of %s: "
                                 "%s" % (cfg, ex))
+          except GroupMismatch as ex:
+            rep.fail(rule, unit, "group-membership",
+                     "%s: %s" % (cfg, ex), loc=loc, instance=cfg)
+            continue
           ee = 1 if e is None else e
           # expected: positions with the same index j // e along axis a (and
           # any index along the other axes) form one group
